@@ -358,7 +358,7 @@ def execute(scn, L):
 
         cls = judge(out, tag, R_full, recs, e, x, L, ctx, cut=k,
                     data_end_section=sec, spans=spans,
-                    tail=intact[max(0, k - 400):k])
+                    tail=intact[(spans[sec][1] if sec is not None else max(0, k - 400)):k])
         st, pc = position_class(k, spans, ref, len(intact))
 
         if 0 < k < len(intact) and intact[k - 1:k] == b'\n' and \
@@ -557,7 +557,7 @@ def execute(scn, L):
 
         cls = judge(out, 'overtake', R_full, ra.records, ra.end, ra.exc, L,
                     ctx, cut=k, data_end_section=sec, spans=spans,
-                    tail=intact[max(0, k - 400):k])
+                    tail=intact[(spans[sec][1] if sec is not None else max(0, k - 400)):k])
         out.faults['overtake'] = out.faults.get('overtake', 0) + \
             (1 if k < len(intact) else 0)
         out.states.add('overtake|%s' % cls)
